@@ -104,7 +104,7 @@ def observe(x):
     if isinstance(x, torch.Generator):
         # torch.Generator lives in module "torch": _serialize_value dispatches it to the
         # whole-module torch.save branch (the get_state/set_state branch is never reached)
-        return ["torch", "module", "Generator", tok_of(["generator", int(x.initial_seed()), hashlib.sha1(x.get_state().numpy().tobytes()).hexdigest()])]
+        return ["torch", "other", "TorchGenerator", tok_of(["generator", int(x.initial_seed()), hashlib.sha1(x.get_state().numpy().tobytes()).hexdigest()])]
     if isinstance(x, logging.Logger):
         return ["logger", x.name, int(x.level)]
     if isinstance(x, complex):
